@@ -67,6 +67,7 @@ def run(rep, tier, rng):
                        "the files equal those of the undisturbed run; non-trivial = distinct case" % len(codes))
     impl = stages.correspondence(rep, "wfault", dev, cases, "wfault")
     nfail, surfaced, exhaustive_k = 0, 0, 0
+    known_f15 = []
     for c, m, r in zip(cases, meta, impl):
         kind, name, code, hs, dest, k, pers, ncalls, base = m
         rep.dist("%s_dest%d_%s" % (kind, dest, "persistent" if pers else "oneshot"))
@@ -80,6 +81,9 @@ def run(rep, tier, rng):
                 msg = "panic result"
             errs = [i for i, x in enumerate(rs) if x[0] == "err"]
             total = base["shp"]["ops"] if dest == 1 else base["shx"]["ops"]
+            # operations issued before the heal call: the base run's trailing finalize (seek, 13 header chunks,
+            # seek end, flush = 16 operations) only has something to do when the workload ends with a write
+            total -= 16 if name.endswith("w") else 0
             if kind == "retry":
                 if k < total:
                     if not errs:
@@ -91,7 +95,20 @@ def run(rep, tier, rng):
                 # after heal + finalize (+ finalize, drop) the files must be those of the undisturbed run, provided
                 # the fault hit a finalize (a failed write_shape legitimately loses that shape)
                 only_finalizes_failed = all(_call_kind(c, i) == "f" for i in errs)
-                if only_finalizes_failed:
+                # known finding F15: a write_shape issued after a failed finalize, before the next successful one,
+                # lands where the failed finalize left the destination (inside the header)
+                f15 = False
+                pending = False
+                for i, x in enumerate(rs):
+                    kd = _call_kind(c, i)
+                    if kd == "f":
+                        pending = (x[0] == "err") or (pending and x[0] != "ok")
+                    elif kd == "w" and pending and x[0] == "ok":
+                        f15 = True
+                if only_finalizes_failed and f15:
+                    if rs[-1] != ("ok",) or res["shp"]["buf"] != base["shp"]["buf"] or res["shx"]["buf"] != base["shx"]["buf"]:
+                        known_f15.append(c)
+                elif only_finalizes_failed:
                     if rs[-1] != ("ok",) or rs[-2] != ("ok",):
                         msg = msg or "finalize retried on a healed destination failed: %r" % (rs[-2:],)
                     elif res["shp"]["buf"] != base["shp"]["buf"] or res["shx"]["buf"] != base["shx"]["buf"]:
@@ -115,6 +132,15 @@ def run(rep, tier, rng):
             nfail += 1
             if nfail == 1:
                 rep.violation({"kind": "oracle", "what": msg, "case_kind": "whist", "case": c, "workload": name, "chunk": cs})
+    listed = [f for f in sfv.load_known_findings().get("findings", []) if f.get("id") == "F15"]
+    if known_f15:
+        if listed:
+            rep.known_finding("F15 a write_shape issued after a failed finalize (and before the next successful one) is written "
+                              "at the position the failed finalize left, inside the header: %d histories of this run" % len(known_f15))
+            rep.cov["known_finding_F15_cases"] = len(known_f15)
+        else:
+            rep.violation({"kind": "oracle", "what": "files differ from the undisturbed run after write-after-failed-finalize",
+                           "case_kind": "whist", "case": known_f15[0]})
     rep.cov["faults_surfaced_from_the_failing_call"] = surfaced
     rep.cov["chunked_runs"] = len(chunk_cases)
     rep.cov["exhaustive"] = True
